@@ -415,6 +415,59 @@ func checkC10(w *World) {
 			w.check(P, "R10.3", fmt.Sprintf("elements of an existing %s list put into another list", fromList), c.Pos(), false, "cursor objects of another element's "+fromList+" list are copied into a new list: the same node object then sits in two elements' lists, its Parent() is the old owner and any later write to it affects both")
 		})
 	})
+	// ... nor is one element's list (the slice itself, or a re-slice of it) stored into another element's list field
+	w.forAllFuncs("store", func(fn *ssa.Function) {
+		allInstrs(fn, func(in ssa.Instruction) {
+			st, ok := in.(*ssa.Store)
+			if !ok {
+				return
+			}
+			fa, ok := st.Addr.(*ssa.FieldAddr)
+			if !ok {
+				return
+			}
+			if pt, ok := fa.X.Type().Underlying().(*types.Pointer); !ok || !types.Identical(pt.Elem(), sf.T) {
+				return
+			}
+			if r := sf.roleOf(fa.Field); r != "namespaces" && r != "attributes" && r != "children" {
+				return
+			}
+			seen := map[ssa.Value]bool{}
+			var shared func(v ssa.Value, d int) (string, bool)
+			shared = func(v ssa.Value, d int) (string, bool) {
+				if d > 6 || seen[v] {
+					return "", false
+				}
+				seen[v] = true
+				switch x := v.(type) {
+				case *ssa.Slice:
+					return shared(x.X, d+1)
+				case *ssa.ChangeType:
+					return shared(x.X, d+1)
+				case *ssa.Phi:
+					for _, e := range x.Edges {
+						if r, is := shared(e, d+1); is {
+							return r, true
+						}
+					}
+				case *ssa.UnOp:
+					if f2, ok := x.X.(*ssa.FieldAddr); ok && x.Op == token.MUL {
+						if pt, ok := f2.X.Type().Underlying().(*types.Pointer); ok && types.Identical(pt.Elem(), sf.T) {
+							r := sf.roleOf(f2.Field)
+							if (r == "namespaces" || r == "attributes" || r == "children") && !(f2.Field == fa.Field && (f2.X == fa.X || sameObj(f2.X, fa.X))) {
+								return r, true
+							}
+						}
+					}
+				}
+				return "", false
+			}
+			if r, is := shared(st.Val, 0); is {
+				n3++
+				w.check(P, "R10.3", fmt.Sprintf("another cursor's %s list stored as a list of this cursor in %s", r, fn.Name()), st.Pos(), false, "the slice of another element's "+r+" list becomes this element's list: the two elements then share the node objects (whose Parent() and position belong to the other element) and the backing array")
+			}
+		})
+	})
 	if n3 == 0 {
 		w.check(P, "R10.3", "package store: no list sharing", 0, true, "no copy/append takes its elements from an existing cursor list")
 	}
@@ -555,7 +608,7 @@ func checkC10(w *World) {
 				if !ok {
 					return true
 				}
-				if bo.Op == token.SUB && !(isLenOf(bo.X, nil) && isLenOf(bo.Y, nil)) && !lenGrowthDifference(bo) {
+				if bo.Op == token.SUB && !(isLenOf(bo.X, nil) && isLenOf(bo.Y, nil) && onlyGrowsBetween(bo.Y.(*ssa.Call), bo.X.(*ssa.Call))) && !lenGrowthDifference(bo) {
 					bad = "a subtraction at " + w.pos(bo.Pos())
 				}
 				if k, isK := constInt(bo.Y); bo.Op == token.ADD && isK && k < 0 {
@@ -1441,7 +1494,7 @@ func lenGrowthDifference(bo *ssa.BinOp) bool {
 		if depth > 4 {
 			return
 		}
-		if c, ok := v.(*ssa.Call); ok && isLenOf(c, nil) && same(c.Call.Args[0], y.Call.Args[0]) {
+		if c, ok := v.(*ssa.Call); ok && isLenOf(c, nil) && same(c.Call.Args[0], y.Call.Args[0]) && onlyGrowsBetween(y, c) {
 			found = true
 		}
 		if b, ok := v.(*ssa.BinOp); ok && b.Op == token.ADD {
@@ -1533,4 +1586,59 @@ func advancesAndReturnsCounter(g *ssa.Function) bool {
 		}
 	}
 	return false
+}
+
+// onlyGrowsBetween: earlier and later are len() of two reads of one list field; every store into that field that can
+// happen after the earlier read is an append onto the field itself, so later - earlier is the number of entries added
+// (a list that is re-made in between, `declared := e.list; e.list = make(...)`, can be shorter than it was).
+func onlyGrowsBetween(earlier, later *ssa.Call) bool {
+	fieldOf := func(c *ssa.Call) (*ssa.UnOp, *ssa.FieldAddr) {
+		ld, ok := c.Call.Args[0].(*ssa.UnOp)
+		if !ok || ld.Op != token.MUL {
+			return nil, nil
+		}
+		fa, _ := ld.X.(*ssa.FieldAddr)
+		return ld, fa
+	}
+	le, fe := fieldOf(earlier)
+	_, fl := fieldOf(later)
+	if fe == nil || fl == nil {
+		// not fields: the same value, or lists the rule knows nothing about (kept as before)
+		return fe == nil && fl == nil
+	}
+	if fe.Field != fl.Field || !types.Identical(fe.X.Type(), fl.X.Type()) {
+		return false
+	}
+	ok := true
+	allInstrs(le.Parent(), func(in ssa.Instruction) {
+		st, isSt := in.(*ssa.Store)
+		if !isSt {
+			return
+		}
+		f2, isF := st.Addr.(*ssa.FieldAddr)
+		if !isF || f2.Field != fe.Field || !types.Identical(f2.X.Type(), fe.X.Type()) {
+			return
+		}
+		// a store that certainly precedes the earlier read does not matter
+		if instrAfter(st, le) {
+			return
+		}
+		grows := false
+		if c, isC := st.Val.(*ssa.Call); isC {
+			if b, isB := c.Call.Value.(*ssa.Builtin); isB && b.Name() == "append" {
+				if l0, isL := c.Call.Args[0].(*ssa.UnOp); isL && l0.Op == token.MUL {
+					if f0, isF0 := l0.X.(*ssa.FieldAddr); isF0 && f0.Field == fe.Field {
+						grows = true
+					}
+				}
+				if _, isPhi := c.Call.Args[0].(*ssa.Phi); isPhi {
+					grows = true
+				}
+			}
+		}
+		if !grows {
+			ok = false
+		}
+	})
+	return ok
 }
